@@ -504,6 +504,8 @@ public:
       /* call copy constructor for first elements */
       for(i = 0; i < max() && i < newmax; i++)
       {
+         /* newMem is raw memory: construct the item before assigning to it */
+         new(&(newMem[i])) Item();
          newMem[i].data = std::move(theitem[i].data);
          newMem[i].info = theitem[i].info;
       }
